@@ -12,10 +12,10 @@ if git diff --quiet HEAD -- src/DTAIDistanceC src/dtaidistance/*.pyx 2>/dev/null
 needs_build=$(grep -c "DTAIDistanceC\|\.pyx" patch.diff)
 if [ "$needs_build" -gt 0 ]; then /venv/bin/python setup.py build_ext --inplace -q > /tmp/mut_build.log 2>&1; fi
 without_rc=0; /venv/bin/python "$demo" > /tmp/demo_without.log 2>&1 || without_rc=$?
-/venv/bin/python -m pytest -q -p no:cacheprovider --timeout=900 -q tests/test_dtw.py tests/test_warping.py tests/test_bugs.py tests/test_cython.py 2>&1 | grep -E "passed|failed|error" | tail -1 > /tmp/t_without.log
+/venv/bin/python -m pytest -q -p no:cacheprovider --timeout=900 tests/test_dtw.py tests/test_warping.py tests/test_bugs.py tests/test_cython.py 2>&1 | grep -E "passed|failed|error" | tail -1 > /tmp/t_without.log
 git stash pop -q
 if [ "$needs_build" -gt 0 ]; then /venv/bin/python setup.py build_ext --inplace -q > /tmp/mut_build.log 2>&1; fi
-/venv/bin/python -m pytest -q -p no:cacheprovider --timeout=900 -q tests/test_dtw.py tests/test_warping.py tests/test_bugs.py tests/test_cython.py 2>&1 | grep -E "passed|failed|error" | tail -1 > /tmp/t_with.log
+/venv/bin/python -m pytest -q -p no:cacheprovider --timeout=900 tests/test_dtw.py tests/test_warping.py tests/test_bugs.py tests/test_cython.py 2>&1 | grep -E "passed|failed|error" | tail -1 > /tmp/t_with.log
 echo "demo with patch rc=$with_rc, without rc=$without_rc"; echo "tests without: $(cat /tmp/t_without.log)"; echo "tests with:    $(cat /tmp/t_with.log)"
 if [ "$with_rc" -ne 0 ] && [ "$without_rc" -eq 0 ]; then
   d=/verif/seeded/$pid-$name; mkdir -p "$d"; cp patch.diff "$d/patch.diff"; cp "$demo" "$d/$demo"
